@@ -30,7 +30,7 @@ AUDIT = "Ymq.Audit.C19BM"
 THEOREMS = ["Ymq.C19BM." + t for t in (
     "bm_montgomery_ops bm_big_ops bm_invariant_init bm_invariant bm_sound bm_big_sound bm_window_not_from_degree "
     "bm_degree_bound_tight bm_no_panic_iff bm_big_no_panic_iff bm_empty_iff bm_big_empty_iff bm_no_panic bm_big_no_panic "
-    "bm_no_panic_recurrence bm_panic_empty bm_panic_single_term bm_panic_zero_constant_term").split()]
+    "bm_no_panic_recurrence bm_minimal bm_big_minimal bm_panic_empty bm_panic_single_term bm_panic_zero_constant_term").split()]
 W = 1 << 64
 LIM64 = 1 << 63          # the Montgomery variant is proved for odd primes below 2^63
 LIM256 = 1 << 255        # the big variant is proved for primes below 2^244 (inv_mod); subp needs p < 2^255
